@@ -29,6 +29,7 @@ ASSUMPTIONS = ['dense SVD (LAPACK) of the unfoldings is the reference',
     'rounding floor: 50(d-1)eps||A|| in SVD mode, sqrt(50(d-1)eps)||A|| in '
     'eigen mode (Gram matrix squares the condition number)',
     'inputs with ||A|| = 0 belong to C11 and are not judged here']
+COVER = ['transformation.truncate', 'svd.matrix_svd', 'svd.matrix_skeleton', 'act_many.add_many']
 SHARDS = {'quick': 12, 'thorough': 16}
 MAX_DENSE = 5000
 
